@@ -3,6 +3,7 @@
      ev2 <thrq> <thrid> <flags> m00 m01 m10 m11    binary64 bit patterns; the extracted Flocq instance of the 2x2 closed form;
                                            flags: 'a'|'r' absolute/relative identity threshold, 'c'|'p' second vector from columns/perpendicular
      ev2f ...                              the same on binary32 bit patterns (FieldMatrix<float,2,2>)
+     k3 eig0|ortho|eig1 ...                the 3x3 eigenvector kernels on binary64 bit patterns (see harness/C08/impl.cc)
      e1 <m>                                n = 1
      ho <routine> <d|f|l> n info e...      the LAPACK hand-over with the same scripted LAPACK stub as the mock build
                                            of the impl harness (w = 1000+i, a/vr/vl = 2000/5000/4000 + k, ...) *)
@@ -55,6 +56,15 @@ let () =
           let v = c08_b32_eigenvalues2 thrq m and f = c08_b32_eigenvaluesvectors2 rel perp thrq thrid m in
           "vals " ^ res_str (fun (a, b) -> hx32 a ^ " " ^ hx32 b) v ^ " | vecs " ^
           res_str (fun ((a, b), ((x0, y0), (x1, y1))) -> String.concat " " (List.map hx32 [a; b; x0; y0; x1; y1])) f
+        | "k3" ->
+          let v3 i = ((fb t.(i), fb t.(i + 1)), fb t.(i + 2)) in
+          let m3 i = ((v3 i, v3 (i + 3)), v3 (i + 6)) in
+          let hx3 ((a, b), c) = hx a ^ " " ^ hx b ^ " " ^ hx c in
+          (match t.(1) with
+           | "eig0" -> res_str (fun (_, v) -> hx3 v) (c08_b64_eig0 (m3 2) (fb t.(11)))
+           | "ortho" -> res_str (fun (u, v) -> hx3 u ^ " " ^ hx3 v) (c08_b64_orthocomp (v3 2))
+           | "eig1" -> res_str hx3 (c08_b64_eig1 (m3 2) (v3 11) (fb t.(14)))
+           | _ -> "BAD k3")
         | "e1" ->
           let (w, v) = c08_eig1 c08_b64_ops (fb t.(1)) in
           "vals " ^ hx w ^ " | vecs " ^ hx w ^ " " ^ hx v
@@ -91,7 +101,8 @@ let () =
              let want = routine = "dyn1" in
              let cur = fin (lres ev (c08_nonsym_dyn (-99) geev want nn a)) in
              let fixd = fin (lres ev (c08_nonsym_dyn_fixed (-99) geev want nn a)) in
-             cur ^ " || " ^ fixd
+             let src = fin (lres ev (c08_nonsym_dyn_src (-99) geev want nn a)) in     (* the call as the source now writes it (Params_gen) *)
+             cur ^ " || " ^ fixd ^ " || " ^ src
            | _ -> "BAD routine")
         | _ -> "BAD case"
       with _ -> "BAD case (exception in driver)" in
